@@ -374,7 +374,12 @@ class Schema:
                 if parent_path_str not in items:
                     items[parent_path_str] = {}
 
-                if not items[parent_path_str].get("type"):
+                if (
+                    not items[parent_path_str].get("type")
+                    and par_implicit_type in IMP_TYPE_LOOKUP
+                ):
+                    # (an integer path part may be a list index or a mapping key, which
+                    # implies nothing about the parent's type)
                     items[parent_path_str]["type"] = IMP_TYPE_LOOKUP[par_implicit_type]
                     items[parent_path_str]["type_fmt"] = items[parent_path_str]["type"]
 
